@@ -181,13 +181,13 @@ def run_cli(argv, capture_stdout=True, stale=True, tty_stderr=None):
     if stale:
         plant_stale_outputs(argv)
     argv, old_cwd = relativize(argv)
-    h = _draw("env", argv)
-    if h % 10 == 0:
+    hdraw = _draw("env", argv)
+    if hdraw % 10 == 0:
         # the global --debug switch only changes what is logged
         argv = ["--debug"] + argv
         STALE["debug_flag_runs"] += 1
     old_tmp = tempfile.tempdir
-    if h % 7 == 0 and os.path.isdir("/dev/shm"):
+    if hdraw % 7 == 0 and os.path.isdir("/dev/shm"):
         # temporary files on another file system than the inputs and outputs (TMPDIR on tmpfs)
         global _SHM_TMP
         if _SHM_TMP is None:
@@ -211,7 +211,7 @@ def run_cli(argv, capture_stdout=True, stale=True, tty_stderr=None):
     out = _Capture()
     err = io.StringIO()
     if tty_stderr is None:
-        tty_stderr = h % 9 == 0
+        tty_stderr = hdraw % 9 == 0
     if tty_stderr:
         # interactive use: standard error is a terminal (standard output still is a file or a pipe)
         err.isatty = lambda: True
